@@ -2,10 +2,10 @@
 package endpoint
 
 import (
-	"github.com/brutella/hc/db"
 	"bytes"
 	"crypto/ed25519"
 	"encoding/binary"
+	"github.com/brutella/hc/db"
 	"io"
 
 	xchacha "golang.org/x/crypto/chacha20poly1305"
